@@ -882,19 +882,20 @@ func (p *printer) printWithEscape(c rune, escape escapeKind, remainingText strin
 		text := fmt.Sprintf("\\%x", c)
 		p.css = append(p.css, text...)
 
-		// Make sure the next character is not interpreted as part of the escape sequence
-		if len(text) < 1+6 {
-			if next := utf8.RuneLen(c); next < len(remainingText) {
-				c = rune(remainingText[next])
-				if c == ' ' || c == '\t' || (c >= '0' && c <= '9') || (c >= 'a' && c <= 'f') || (c >= 'A' && c <= 'F') {
-					p.css = append(p.css, ' ')
-				}
-			} else if mayNeedWhitespaceAfter {
-				// If the last character is a hexadecimal escape, print a space afterwards
-				// for the escape sequence to consume. That way we're sure it won't
-				// accidentally consume a semantically significant space afterward.
+		// Make sure the next character is not interpreted as part of the escape
+		// sequence. An escape with six digits cannot take another digit, but it
+		// still consumes one whitespace character after it.
+		isShort := len(text) < 1+6
+		if next := utf8.RuneLen(c); next < len(remainingText) {
+			c = rune(remainingText[next])
+			if c == ' ' || c == '\t' || (isShort && ((c >= '0' && c <= '9') || (c >= 'a' && c <= 'f') || (c >= 'A' && c <= 'F'))) {
 				p.css = append(p.css, ' ')
 			}
+		} else if mayNeedWhitespaceAfter {
+			// If the last character is a hexadecimal escape, print a space afterwards
+			// for the escape sequence to consume. That way we're sure it won't
+			// accidentally consume a semantically significant space afterward.
+			p.css = append(p.css, ' ')
 		}
 	}
 }
